@@ -1,6 +1,7 @@
 import TaskModel.Load.RootRef
 import TaskModel.Gen.Codes
 import Driver.Util
+import TaskModel.Resolve.Table
 /-!
 Driver glue for the `load` domain.
 
@@ -138,10 +139,38 @@ def doRefs (args : List String) : Option String := do
     some (" ".intercalate (["ok", toString ts.length] ++ ts.flatMap (fun t =>
       ["T", hexName t.1, "L", toString t.2.1, "R"] ++ showNames t.2.2)))
 
+def insStr (s : String) : List String → List String
+  | [] => [s]
+  | x :: xs => if s ≤ x then s :: x :: xs else x :: insStr s xs
+
+def sortStrs (l : List String) : List String := l.foldr insStr []
+
+/-- `load.resolve <root> <nfiles> file* <k> <req>*` → `ok | <answer>{k}` with answer
+`found <name> <nw> <w>*` | `conflict <n> <name>*` (sorted) | `notfound`: the model's merged
+table (`load`) handed to the resolution model (`Resolve.resolve`) — property C15 over the
+tables that includes, namespace aliases and default-task aliases produce. -/
+def doResolve (args : List String) : Option String := do
+  let ((root, fm, reqs), rest) ← (do
+    let root ← nat; let fm ← many file; let reqs ← many name; pure (root, fm, reqs) : P _) args
+  if !rest.isEmpty then none
+  match load fm root with
+  | .error e => some s!"err {errName e} {errCode e}"
+  | .ok tf =>
+    let toStr (n : Name) : List Char := n.map Char.ofNat
+    let tbl : List TaskModel.Resolve.Entry := tf.tasks.map (fun t => { name := toStr t.name, aliases := t.aliases.map toStr })
+    let nameAt (i : Nat) : String := match tf.tasks[i]? with | some t => hexName t.name | none => "?"
+    let answer (rq : Name) : String :=
+      match TaskModel.Resolve.resolve tbl (toStr rq) with
+      | .found i ws => " ".intercalate (["found", nameAt i, toString ws.length] ++ ws.map hexChars)
+      | .conflict is => " ".intercalate (["conflict", toString is.length] ++ sortStrs (is.map nameAt))
+      | .notFound => "notfound"
+    some (" | ".intercalate ("ok" :: reqs.map answer))
+
 def handle (op : String) (args : List String) : Option String :=
   match op with
   | "load.tree" => doTree args
   | "load.refs" => doRefs args
+  | "load.resolve" => doResolve args
   | _ => none
 
 end Driver.Load
